@@ -211,6 +211,11 @@ def rule_o10(ctx) -> None:
                 return True, None
             if t in inner:
                 return (True, None) if inner_bounded(inner[t]) else (False, e)
+            if t == "clip" and len(e.args) == 3:
+                lo, hi = bounded(g, e.args[1], at, depth + 1), bounded(g, e.args[2], at, depth + 1)
+                return (lo[0] and hi[0]), e
+            if t in ("round", "abs", "fabs") and e.args:
+                return bounded(g, e.args[0], at, depth + 1)
             if t in ("min", "max", "amin", "amax", "fmin", "fmax", "nanmin", "nanmax", "float"):
                 args = []
                 for a in e.args:
